@@ -190,6 +190,7 @@ package ast_go
 //@ ensures forall k string :: {(*dsMap)[k]} (k in *dsMap) ==> (*dsMap)[k] != nil && (*dsMap)[k] != currentStruct && Allocated((*dsMap)[k])
 // a type declaration starts a fresh entry under the declared name; the types listed so far are not touched
 //@ ensures TypeIs(node, *ast.TypeSpec) ==> (TSName(node) in *dsMap) && (*(*dsMap)[TSName(node)]).NodeName == TSName(node)
+//@ ensures TypeIs(node, *ast.TypeSpec) && (TSName(node) in old(*dsMap)) ==> (*(*dsMap)[TSName(node)]).Functions == old((*(*dsMap)[TSName(node)]).Functions)
 //@ ensures TypeIs(node, *ast.TypeSpec) ==> (forall k string :: {(*dsMap)[k]} (k in old(*dsMap)) && k != TSName(node) ==> (k in *dsMap) && (*dsMap)[k] == old((*dsMap)[k]) && *(*dsMap)[k] == old(*(*dsMap)[k]))
 // a method is attached to the entry of its receiver's type, whether or not that type has been met yet
 //@ ensures HasRecv(node) ==> (FDRecv(node) in *dsMap) && len((*(*dsMap)[FDRecv(node)]).Functions) >= 1 && (*(*dsMap)[FDRecv(node)]).Functions[len((*(*dsMap)[FDRecv(node)]).Functions) - 1].Name == FDName(node)
